@@ -9,7 +9,7 @@ theorem cvv_generate_cvc3 (k t a u : Bytes) : Gen.cvv.generate_cvc3 k t a u = ge
   unfold Gen.cvv.generate_cvc3 generateCvc3
   simp only [tools_ecb, mac_mac3, bind, Except.bind, pure, Except.pure]
   repeat (first | rfl | split)
-  all_goals simp_all
+  all_goals first | (simp_all; done) | slice_forms
 
 /-- **C11 about the translated source**: five decimal digits denoting the 16-bit value -/
 theorem source_generate_cvc3 (k track atc un : Bytes) (hk : k.length = 16) (ha : atc.length = 2) (hu : un.length = 4) :
